@@ -83,6 +83,7 @@ type keyTrack struct {
 func (m *Monitor) String() string { return "monitor" }
 
 type monitorState struct {
+	atRiskList  []*reqTrack // requests in the window of finding F8, in the order they entered it
 	cr          *coreRun
 	w           *World
 	cfg         ModelCfg
@@ -152,12 +153,19 @@ func (ms *monitorState) attach() {
 		}
 	}
 	cr.h.atRisk = func(conn int) *ReqRec {
-		for _, rt := range ms.reqs {
-			if rt.atRisk && !rt.termSeen && rt.r.Client == conn && !rt.r.excused {
-				return rt.r
+		var found *ReqRec
+		keep := ms.atRiskList[:0]
+		for _, rt := range ms.atRiskList {
+			if rt.termSeen || rt.r.excused {
+				continue
+			}
+			keep = append(keep, rt)
+			if found == nil && rt.r.Client == conn {
+				found = rt.r
 			}
 		}
-		return nil
+		ms.atRiskList = keep
+		return found
 	}
 	cr.h.onInv = append(cr.h.onInv, ms.onInvoke)
 	cr.h.onReply = append(cr.h.onReply, ms.onReply)
@@ -778,6 +786,9 @@ func (ms *monitorState) bookHolds(kt *keyTrack, after *MKey, ptrs []*Lock, now t
 		for _, h := range kt.mk.Holders {
 			if !still[h.Req] {
 				if rt := ms.reqs[h.Req]; rt != nil && !rt.termSeen {
+					if !rt.atRisk {
+						ms.atRiskList = append(ms.atRiskList, rt)
+					}
 					rt.atRisk = true
 				}
 			}
@@ -973,6 +984,18 @@ func (ms *monitorState) onReply(r *ReqRec, rep *Reply) {
 		rt.gotExp = true
 		return
 	}
+	if rt.termSeen && rep.maybeOf != nil {
+		// two replies under this id while another request of the connection was in the F8 window: this
+		// one is the foreign one if the first has been accepted; otherwise the first verdict decides
+		for _, d := range ms.deferred {
+			if d.rt == rt {
+				return
+			}
+		}
+		if ms.cr.h.attributeRecycled(r, rep) {
+			return
+		}
+	}
 	if rt.termSeen {
 		if rep.Result == protocol.RESULT_TIMEOUT && r.Op.Cmd == protocol.COMMAND_LOCK && r.Op.TFlag&tfAck == 0 {
 			// C05: once a queued request has been granted or cancelled its timeout can no longer fire
@@ -987,6 +1010,9 @@ func (ms *monitorState) onReply(r *ReqRec, rep *Reply) {
 	id := ms.kidOf(r)
 	defer func() {
 		// drop from pending, unless the verdict was deferred (its permitted replies keep growing)
+		if !rt.termSeen {
+			return // the reply turned out to be another request's (recycledReply): still pending
+		}
 		for _, d := range ms.deferred {
 			if d.rt == rt {
 				return
@@ -1043,6 +1069,9 @@ func (ms *monitorState) onReply(r *ReqRec, rep *Reply) {
 			}
 		}
 		if why != "" {
+			if ms.recycledReply(rt, rep) {
+				return
+			}
 			ms.violate(replyProp(rt, rep, why), "reply_mismatch", "request %s answered with %s", r, why)
 			return
 		}
@@ -1100,6 +1129,41 @@ func (ms *monitorState) onReply(r *ReqRec, rep *Reply) {
 	ms.deferred = append(ms.deferred, deferredReply{rt, *rep, ms.transitions})
 }
 
+// recycledReply: a reply that is no permitted answer to its request, delivered while an earlier request
+// of the same connection was in the window of finding F8, is that request's reply (see
+// History.attributeRecycled); the request it names is pending again.
+func (ms *monitorState) recycledReply(rt *reqTrack, rep *Reply) bool {
+	if rep.maybeOf == nil || !ms.cr.h.attributeRecycled(rt.r, rep) {
+		return false
+	}
+	rt.termSeen = false
+	id := ms.kidOf(rt.r)
+	found := false
+	for _, x := range ms.pending[id] {
+		if x == rt {
+			found = true
+		}
+	}
+	if !found {
+		ms.pending[id] = append(ms.pending[id], rt)
+	}
+	if len(rt.r.Replies) > 0 {
+		// the request's own reply has arrived meanwhile
+		rt.r.Replies[0].maybeOf = nil
+		ms.onReply(rt.r, &rt.r.Replies[0])
+	}
+	return true
+}
+
+// acceptedFirst: the first reply under an id has been accepted as the request's own; a second one that
+// arrived in the F8 window of another request of the connection is that request's.
+func (ms *monitorState) acceptedFirst(rt *reqTrack) {
+	if len(rt.r.Replies) > 1 && rt.r.Replies[1].maybeOf != nil {
+		rep := rt.r.Replies[1]
+		ms.cr.h.attributeRecycled(rt.r, &rep)
+	}
+}
+
 func (ms *monitorState) settleDeferred() {
 	if len(ms.deferred) == 0 {
 		return
@@ -1112,7 +1176,11 @@ func (ms *monitorState) settleDeferred() {
 		if rt.pred != nil || rt.attributed {
 			// its critical section was booked after the reply was seen
 			if rt.pred != nil && rt.pred.Result != rep.Result {
-				ms.violate(replyProp(rt, &rep, "result"), "reply_mismatch", "request %s answered with result %d, expected %d", rt.r, rep.Result, rt.pred.Result)
+				if !ms.recycledReply(rt, &rep) {
+					ms.violate(replyProp(rt, &rep, "result"), "reply_mismatch", "request %s answered with result %d, expected %d", rt.r, rep.Result, rt.pred.Result)
+				}
+			} else {
+				ms.acceptedFirst(rt)
 			}
 			continue
 		}
@@ -1122,7 +1190,9 @@ func (ms *monitorState) settleDeferred() {
 				ok = true
 			}
 		}
-		if !ok {
+		if ok {
+			ms.acceptedFirst(rt)
+		} else if !ms.recycledReply(rt, &rep) {
 			why := fmt.Sprintf("result %d, which no state the key was in while the request was pending permits without a change", rep.Result)
 			ms.violate(replyProp(rt, &rep, why), "reply_mismatch_nochange", "request %s answered with %s (state now %s)", rt.r, why, kt.mk.sig())
 		}
